@@ -93,7 +93,7 @@ CHECKS = {
              "file is a well-formed element of the XML grammar with only XML Chars (declarative grammar), each event is "
              "filed once under its own suite/class/name, suite attributes equal element counts. Tied to the real wrapper "
              "char-for-char; every real file is parsed with expat and ElementTree.",
-        note="grammar subset = what the serializer emits; doctest/manuel name parsers are not modelled; file names "
+        note="grammar subset = what the serializer emits; the name parser of DocTestCase is modelled (C17_doctest_name), those of DocFileCase and manuel are not; file names "
              "derive from class names (identifiers)",
         technique="Lean 4 theorems on serializer model + char-for-char correspondence + strict XML parsers as oracle",
         design="§5 C17"),
